@@ -7,8 +7,9 @@ and untagged maps.  Leaves, tags, actions and key material are M7's (`Evl.Encryp
 
 What the tree keeps of Go's reflection: *addressability*.  A struct reached through a pointer, a
 slice element or (since the fix of struct values in maps) a map value has settable fields; a struct
-held BY VALUE in an interface (a `struct` payload, an `interface{}` field) has not, and `filterValue`
-silently leaves such strings alone (known finding F6c for payloads).
+passed BY VALUE as the payload has not, and `filterValue` silently leaves such strings alone (known
+finding F6c).  A value held directly in an `interface{}` *field* is filtered on a settable copy that
+is stored back in the field (fix 663fde8) — whenever the struct that has the field is addressable.
 
 Not in this model: Taggable values, wrapperspb / structpb values, IgnoreTypes, arrays, channels.
 -/
@@ -79,15 +80,17 @@ def filtV (c : Ctx) (t : TagInfo) (addr : Bool) : V → Option V
   | .leaves ls => (filterStrs c t ls).map .leaves
   | .nilPtr => some .nilPtr
   | .ptr v => (filtV c t true v).map .ptr              -- what a pointer points at is addressable
-  | .iface v => (filtIface c t v).map .iface
+  | .iface v => (filtIface c t addr v).map .iface
   | .struct fs => (filtFields c addr fs).map .struct
   | .slice vs => (filtElems c vs).map .slice
   | .map es => (filtEntries c es).map .map
-/-- an interface-typed field: `field = v.Field(i).Elem()`; a pointer inside is followed once more -/
-def filtIface (c : Ctx) (t : TagInfo) : V → Option V
+/-- an interface-typed field: `field = v.Field(i).Elem()`; a pointer inside is followed once more; a
+value held directly is filtered on a settable copy, stored back when the field itself is settable
+(`addr`: the struct that has the field is addressable) -/
+def filtIface (c : Ctx) (t : TagInfo) (addr : Bool) : V → Option V
   | .ptr v => (filtV c t true v).map .ptr
-  | .leaf l => (filterStr c (action t) false l).map .leaf   -- a string held in an interface: not settable
-  | .struct fs => (filtFields c false fs).map .struct       -- a struct held by value: its fields are not settable
+  | .leaf l => (filterStr c (action t) addr l).map .leaf
+  | .struct fs => (filtFields c addr fs).map .struct
   | .leaves ls => (filterStrs c t ls).map .leaves           -- slice elements stay settable
   | .slice vs => (filtElems c vs).map .slice
   | .map es => (filtEntries c es).map .map
